@@ -8,9 +8,10 @@ import (
 
 var (
 	errPathNotFound = errors.New("path does not exist")
-	setJSONOptions  = &sjson.Options{
-		Optimistic:     true,
-		ReplaceInPlace: true,
+	// ReplaceInPlace must stay off: with it sjson returns the document unchanged (and no error) when the new
+	// value is a string that needs escaping and fits in the place of the old one, so the path would not be masked.
+	setJSONOptions = &sjson.Options{
+		Optimistic: true,
 	}
 )
 
